@@ -34,3 +34,16 @@ Proof.
   intros row u H1 H2 H3 H4. destruct (choice_spec row u H1 H2 H3 H4) as (A & B & _). auto.
 Qed.
 Print Assumptions C03_drawn_label_has_positive_probability.
+
+(* ---- about the regenerated forward loop of lcm.simulate.simulate (Gen/Simulate.v) ---------------- *)
+From LCM Require Import Model.RandomChoice Gen.Simulate Proofs.C04_SimulateLoop.
+(* period 0 starts from the initial states; the states of period t+1 are next_state applied to the   *)
+(* states and the recorded choices of period t, the period t, the params and period t's draw keys,   *)
+(* with the next_ prefix removed                                                                      *)
+Theorem C03_code_law_of_motion : forall (E : sim_env),
+  fst (sim_at E 0) = e_initial_states E /\
+  forall t, fst (sim_at E (S t))
+            = e_remove_next_prefix E (e_next_state E (fst (sim_at E t)) (snd (sim_decision E (fst (sim_at E t)) t)) t
+                                                     (e_params E) (sim_draw_keys E t)).
+Proof. intros E. split; [exact (bundled_initial_states E)|exact (bundled_law_of_motion E)]. Qed.
+Print Assumptions C03_code_law_of_motion.
